@@ -95,32 +95,57 @@ def monitor_path(case, ev, qport, fport, which, base, name):
     return None
 
 
+def in_flight(ev, t):
+    """forwarded requests the environment has retrieved before event t and not yet
+    answered (no accepted response naming them before t): these transactions are
+    certainly in the engine's lists at event t, whatever else happened"""
+    out = []
+    for fport in ('RO', 'DI'):
+        fw = [ev[i]['got']['id'] for i in range(t) if ev[i]['e'] == 'r' and ev[i]['port'] == fport and ev[i].get('got')]
+        rs = {ev[i]['msg']['rspto'] for i in range(t) if ev[i]['e'] == 'd' and ev[i]['port'] == fport and ev[i].get('acc')}
+        out += [(fport, f) for f in fw if f not in rs]
+    return out
+
+
 def monitor_drain(case, ev):
-    if case.get('hostile'):
-        return None
-    # indices of control events
-    for k, e in enumerate(ev):
-        if not (e['e'] == 'r' and e['port'] == 'CT' and e.get('got') and e['got']['flags'] == FL_DRAIN_RSP):
+    """Drain soundness from the observed port traffic, for EVERY history (also
+    hostile ones).  A control response retrieved at event k was pushed in some tick
+    t < k.  The window of possible ticks is narrowed soundly: (a) the m-th DrainRsp
+    is pushed after the m-th accepted DrainReq was delivered (each acknowledgement
+    needs its own processed DrainReq); (b) the control port's out-buffer holds at
+    most `buf` messages and is FIFO, so the j-th control response is pushed only
+    after response j-buf was retrieved.  If at every tick of the window some
+    forwarded request was certainly unanswered, the acknowledgement was sent with
+    a remote transaction in flight."""
+    B = case['buf']
+    ctl = [i for i, e in enumerate(ev) if e['e'] == 'r' and e['port'] == 'CT' and e.get('got')]
+    dreq = [i for i, e in enumerate(ev) if e['e'] == 'd' and e['port'] == 'CT' and e.get('acc')
+            and e['msg']['kind'] == 'KCtrl' and e['msg']['flags'] == FL_DRAIN_REQ]
+    m = 0
+    for j, k in enumerate(ctl):
+        if ev[k]['got']['flags'] != FL_DRAIN_RSP:
             continue
-        # the drain request this acknowledges
-        dreq = max(i for i in range(k) if ev[i]['e'] == 'd' and ev[i]['port'] == 'CT' and ev[i].get('acc')
-                   and ev[i]['msg']['flags'] == FL_DRAIN_REQ)
-        ticks = [i for i in range(dreq, k) if ev[i]['e'] == 'tick']
-        ok = False
+        m += 1
+        if m > len(dreq) or dreq[m - 1] > k:
+            return 'DrainRsp number %d (event %d) without a DrainReq of its own' % (m, k)
+        lo = dreq[m - 1]
+        if j >= B:
+            lo = max(lo, ctl[j - B])
+        ticks = [t for t in range(lo + 1, k) if ev[t]['e'] == 'tick']
+        if not ticks:
+            return 'DrainRsp retrieved at event %d but no tick could have produced it' % k
+        fl = None
         for t in ticks:
-            good = True
-            for fport in ('RO', 'DI'):
-                base = BASE_IN if fport == 'RO' else BASE_OUT
-                fw = [ev[i]['got']['id'] for i in range(t) if ev[i]['e'] == 'r' and ev[i]['port'] == fport and ev[i].get('got')]
-                rs = {ev[i]['msg']['rspto'] for i in range(t) if ev[i]['e'] == 'd' and ev[i]['port'] == fport and ev[i].get('acc')}
-                if any(f not in rs for f in fw):
-                    good = False
-            if good:
-                ok = True
+            fl = in_flight(ev, t)
+            if not fl:
                 break
-        if not ok:
-            return 'DrainRsp retrieved at event %d although at every tick since the DrainReq some forwarded request was still unanswered' % k
-        # until the restart request is delivered nothing new may come out of RDMARequestOutside
+        if fl:
+            return ('DrainRsp retrieved at event %d was sent with a remote transaction in flight: at each of the %d ticks that can have '
+                    'pushed it (events %d..%d) a forwarded request was unanswered, e.g. %s %d' % (k, len(ticks), ticks[0], ticks[-1], fl[0][0], fl[0][1]))
+        if case.get('hostile'):
+            continue
+        # protocol-respecting histories: until the restart request is delivered nothing
+        # new may come out of RDMARequestOutside
         nxt = [i for i in range(k, len(ev)) if ev[i]['e'] == 'd' and ev[i]['port'] == 'CT' and ev[i].get('acc')
                and ev[i]['msg']['flags'] == FL_RESTART_REQ]
         end = nxt[0] if nxt else len(ev)
@@ -186,6 +211,8 @@ def env_ok(case):
 def strip(case):
     c = {k: case[k] for k in ('buf', 'w', 'bank', 'remote', 'local')}
     c['hostile'] = case.get('hostile', False)
+    if case.get('lazy'):
+        c['lazy'] = True
     c['events'] = [{'e': e['e'], **({'port': e['port']} if 'port' in e else {}),
                     **({'msg': e['msg']} if 'msg' in e else {})} for e in case['events']]
     return c
@@ -246,7 +273,7 @@ def monitor_split(c):
 
 # ------------------------------------------------------------------ harness drivers
 
-def run_harness(binary, mode, cases=None, seed=1, n=100):
+def run_harness(binary, mode, cases=None, seed=1, n=100, extra=()):
     tmp = os.path.join(vlib.BUILD, 'c18_%s_%d.json' % (mode, os.getpid()))
     if cases is not None:
         inp = tmp + '.in'
@@ -254,7 +281,7 @@ def run_harness(binary, mode, cases=None, seed=1, n=100):
         rc, log = vlib.run([binary, '--mode', mode, '--replay', inp, '--out', tmp])
         os.remove(inp)
     else:
-        rc, log = vlib.run([binary, '--mode', mode, '--seed', str(seed), '--n', str(n), '--out', tmp])
+        rc, log = vlib.run([binary, '--mode', mode, '--seed', str(seed), '--n', str(n), '--out', tmp] + list(extra))
     if rc != 0:
         return None, log
     out = json.load(open(tmp))
@@ -451,7 +478,7 @@ def main(argv):
         'evaluations': len(cases) + len(dcases) + len(scases) + len(runs),
         'distinct_nontrivial': len({vlib.case_hash(strip(c)) for c in cases if nontrivial(c)}),
         'rule': 'RDMA: random port-level histories (60-260 events; buffer sizes {1,2,3,4,128} x per-cycle widths 1-3; banked tables with '
-                '2-4 remote and 1-4 local modules); every 4th history hostile (unknown/duplicate RspTo, wrong message kind, empty/self source, '
+                '2-4 remote and 1-4 local modules); every 5th history keeps the 1-2 entry out-buffer of the control port full (DrainReqs without waiting for acks, rare pick-up) while traffic from outside stays in flight; every 4th history hostile (unknown/duplicate RspTo, wrong message kind, empty/self source, '
                 'table miss, restart without drain / before the acknowledgement); non-trivial = at least one answer reached a requester on each path. '
                 'Distribute: page sizes 2^{6,10,12,16}, 0-9 GPUs, page counts around multiples of the GPU count, fewer pages than GPUs, misaligned. '
                 'Split: 1-6 GPUs with CU counts from {0,1,2,3,4,36,64,120}, 1-3 dimensional grids incl. partial last work-groups, fewer '
@@ -461,6 +488,8 @@ def main(argv):
         'rdma_answers_observed': sum(1 for c in cases for e in c['events'] if e['e'] == 'r' and e['port'] in ('RI', 'DO') and e.get('got')),
         'rdma_drain_acks_observed': sum(1 for c in cases for e in c['events'] if e['e'] == 'r' and e['port'] == 'CT' and e.get('got') and e['got']['flags'] == FL_DRAIN_RSP),
         'rdma_hostile_cases': sum(1 for c in cases if c.get('hostile')),
+        'rdma_ctrl_backpressure_cases': sum(1 for c in cases if c.get('lazy')),
+        'rdma_drain_acks_under_backpressure': sum(1 for c in cases if c.get('lazy') for e in c['events'] if e['e'] == 'r' and e.get('port') == 'CT' and e.get('got') and e['got']['flags'] == FL_DRAIN_RSP),
         'rdma_crashes_observed': sum(1 for c in cases if any(e.get('crash') for e in c['events'])),
         'distribute_cases': len(dcases), 'distribute_panics': sum(1 for c in dcases if c['panic']),
         'distribute_fewer_pages_than_gpus': sum(1 for c in dcases if not c['panic'] and c['bytes'] and ((c['bytes'] - 1) >> c['log2ps']) + 1 < len(c['gpus'])),
@@ -478,6 +507,21 @@ def main(argv):
         out, _ = run_harness(binary, 'rdma', cases=[strip(c)])
         return bool(out) and env_ok(out[0]) and monitor(out[0]) is not None
 
+    if not bad and not dbad and not sbad and not run_fail and (mism or not okc) and not replay_file:
+        # the model and the engine part ways: look harder for a history on which the
+        # engine itself breaks the property (more seeds, control back-pressure and
+        # hostile streams emphasised)
+        for rnd, extra in enumerate([('--lazy-every', '1'), ('--hostile-every', '2'), (), ('--lazy-every', '2')]):
+            more, _ = run_harness(binary, 'rdma', seed=vlib.seed() * 1000 + 17 + rnd, n=500, extra=extra)
+            for c in more or []:
+                if not c.get('hostile') and not env_ok(c):
+                    c['hostile'] = True
+            found = [(c, monitor(c)) for c in more or []]
+            found = [(c, m) for c, m in found if m]
+            if found:
+                cases.append(found[0][0])
+                bad = [(len(cases) - 1, found[0][1])]
+                break
     if bad:
         i, msg = bad[0]
         c = cases[i]
